@@ -1,19 +1,35 @@
 //! C14 — vector and matrix products (`dot`, `vdot`, `inner`, `outer`, `matmul`).
 //!
-//! Case lines: `C14.<op> <i32|i64|f64> <a> <b>` with integer entries (`shape:elems`, or tag arrays `iSHAPE+off`).
-//! The model answers with the integer result array; the real crate is run on `Array<i32>`, `Array<i64>` or
-//! `Array<f64>` holding the same integers (so the f64 arithmetic is exact) and its result is printed as integers.
-//! No float crosses the boundary: an f64 result that is not an integer is reported as a mismatch.
+//! Case lines: `C14.<op> <type> <a> <b>`.
+//! * `<type>` in `i8 i16 i32 i64 f32 f64`: integer entries (`shape:elems`, or tag arrays `iSHAPE+off`).  The model answers with the
+//!   integer result array; the real crate is run on `Array<type>` holding the same integers and its result is printed as integers.
+//!   The statement speaks about values for which the defining sum is representable, so a case is judged only when every product and
+//!   every partial sum (left to right) is exactly representable in f64 and every entry fits the element type (checked natively with
+//!   i128 arithmetic on the term lists of the independent reference below); otherwise it is reported as open, not compared.
+//! * `<type>` in `f64c f32c`: the entries are CLASS CODES into a table of float values (±0, subnormals, huge, inf, NaN, inexact
+//!   fractions …).  No float crosses the boundary: the model computes on the codes and only its outcome class and result shape are
+//!   used; the VALUES are compared with an independent native reference (textbook index formulas written here, accumulated in f64
+//!   the way the code documents for the path: `mul_add` left fold for matrix x matrix, `sum::<f64>()` of the products for
+//!   vector x matrix / matrix x vector, `fold(0., +)` of the products for vdot / inner / dot, one conversion to the element type at
+//!   the end).  Equal = same number (`==`, so +0 and -0 agree) or both NaN.
+//! Every case is run on BOTH receivers (plain `Array<T>` and `Ok(array)` through `impl … for Result<Array<N>, ArrayError>`).
 use arrharness::*;
+use std::panic::{catch_unwind, AssertUnwindSafe};
 
 const OPS: [&str; 5] = ["matmul", "dot", "vdot", "inner", "outer"];
 const TYS: [&str; 3] = ["i32", "i64", "f64"];
+const INT_TYS: [&str; 6] = ["i16", "i32", "i64", "i8", "f32", "f64"];
 
 fn lit(shape: &[usize], elems: &[i64]) -> String { format!("{}:{}", show_list(shape), show_list(elems)) }
 
 fn rand_arr(rng: &mut Rng, shape: &[usize]) -> String {
     let n: usize = shape.iter().product();
     let e: Vec<i64> = (0..n).map(|_| rng.range(-5, 6)).collect();
+    lit(shape, &e)
+}
+fn rand_arr_in(rng: &mut Rng, shape: &[usize], lo: i64, hi: i64) -> String {
+    let n: usize = shape.iter().product();
+    let e: Vec<i64> = (0..n).map(|_| rng.range(lo, hi)).collect();
     lit(shape, &e)
 }
 
@@ -37,6 +53,47 @@ fn conforming(rng: &mut Rng, maxlen: usize) -> (Vec<usize>, Vec<usize>) {
     }
 }
 
+/// every (operation, shape pair) family with contracted length `m` and outer lengths `n`, `p`, stack length `s`
+fn families(n: usize, m: usize, p: usize, s: usize) -> Vec<(&'static str, Vec<usize>, Vec<usize>)> {
+    vec![
+        ("vdot", vec![m], vec![m]), ("inner", vec![m], vec![m]), ("matmul", vec![m], vec![m]), ("dot", vec![m], vec![m]),
+        ("matmul", vec![n, m], vec![m, p]), ("matmul", vec![m], vec![m, p]), ("matmul", vec![n, m], vec![m]),
+        ("matmul", vec![s, n, m], vec![s, m, p]), ("matmul", vec![s, n, m], vec![m, p]), ("matmul", vec![n, m], vec![s, m, p]),
+        ("dot", vec![n, m], vec![m, n]), ("dot", vec![m], vec![m, p]), ("dot", vec![n, m], vec![m]),
+        ("inner", vec![n, m], vec![p, m]), ("inner", vec![m], vec![p, m]), ("inner", vec![s, n, m], vec![p, m]),
+        ("vdot", vec![n, m], vec![m, n]),
+    ]
+}
+
+/// inclusive value range for random integer entries such that sums over `m` products stay inside the element type
+fn small_range(ty: &str, m: usize) -> (i64, i64) {
+    match ty {
+        "i8" => if m <= 14 { (-3, 3) } else if m <= 31 { (-2, 2) } else { (-1, 1) },   // 14*9 = 126, 31*4 = 124, m <= 127
+        "i16" => if m <= 9 { (-60, 60) } else { (-20, 20) },                        // 9*3600 = 32400, 70*400 = 28000
+        _ => (-9, 9),
+    }
+}
+
+// ---- class-coded float operands
+
+const NCLS: usize = 30;
+const N_ORD: usize = 8;       // codes 2..8 are "ordinary" small values, 0/1 the zeros, 8.. the special classes
+fn cls_lit(shape: &[usize], codes: &[usize]) -> String { format!("{}:{}", show_list(shape), show_list(codes)) }
+fn ordinary(rng: &mut Rng) -> usize { 2 + rng.below(N_ORD - 2) }
+
+/// the textbook reference is used by the generator as well, to aim a special value at a factor that really is multiplied
+fn paired_case(rng: &mut Rng, op: &str, sa: &[usize], sb: &[usize], ca: usize, cb: usize) -> Option<(String, String)> {
+    let (la, lb) = (sa.iter().product::<usize>(), sb.iter().product::<usize>());
+    let mut a: Vec<usize> = (0..la).map(|_| ordinary(rng)).collect();
+    let mut b: Vec<usize> = (0..lb).map(|_| ordinary(rng)).collect();
+    if let Ref::Terms { entries, .. } = reference(op, sa, sb) {
+        let e = rng.pick(&entries); if e.is_empty() { return None; }
+        let &(ia, ib) = rng.pick(e);
+        a[ia] = ca; b[ib] = cb;
+        Some((cls_lit(sa, &a), cls_lit(sb, &b)))
+    } else { None }
+}
+
 fn gen(tier: &str, seed: u64, out: &mut dyn FnMut(String)) {
     let thorough = tier == "thorough";
     // (i) corpus: the witnesses of the defects of the pinned tree and the suite's own rows
@@ -57,6 +114,12 @@ fn gen(tier: &str, seed: u64, out: &mut dyn FnMut(String)) {
         "inner i32 3:1,2,3 2,3:6,5,4,3,2,1",
         "outer i32 2,2:1,2,3,4 2,2:4,3,2,1",
         "vdot i32 3:1,2,3 2,3:1,2,3,4,5,6",
+        // witnesses of the seeded changes C14-r2-m1 (codes: 10 = 2^-1030, 13 = 2^1023, 18 = inf) and C14-r2-m2
+        "matmul f64c 2,2:10,4,5,4 2,2:13,2,5,4",
+        "matmul f64c 1,2:18,2 2,1:2,2",
+        "vdot i32 3:100000,-100000,3 3:100000,100000,2",
+        "vdot i16 2,2:300,-300,2,1 2,2:300,300,2,1",
+        "vdot i64 3:1099511627776,-1099511627776,3 3:1073741824,1073741824,2",
     ] { out(l.to_string()); }
 
     // (ii) exhaustive small scope: every ordered pair of vector / matrix / stack shapes with lengths 1..3,
@@ -121,67 +184,441 @@ fn gen(tier: &str, seed: u64, out: &mut dyn FnMut(String)) {
         let ty = *rng.pick(&TYS);
         out(format!("{op} {ty} {} {}", rand_arr(&mut rng, &sa), rand_arr(&mut rng, &sb)));
     }
-}
 
-/// print a numeric result array as integers; `Err(text)` when an entry is not an integer
-fn show_int_arr<T: NumericOps>(a: &Array<T>) -> Result<String, String> {
-    let mut es = vec![];
-    for v in a.get_elements().unwrap() {
-        let f = v.to_f64();
-        if !(f.is_finite() && f.fract() == 0.0 && f.abs() < 9.0e15) { return Err(format!("non-integer entry {f}")); }
-        es.push(f as i64);
-    }
-    Ok(format!("{}:{}", show_list(&a.get_shape().unwrap()), show_list(&es)))
-}
+    // ============================================================ robustness streams (FRAMEWORK.md)
+    let mut rng = Rng::new(seed ^ 0xC14C14);
+    let reps = if thorough { 6 } else { 1 };
 
-fn run<T: NumericOps>(op: &str, a: Array<T>, b: Array<T>) -> Option<Result<String, String>> {
-    let r: Result<Array<T>, ArrayError> = match op {
-        "matmul" => a.matmul(&b),
-        "dot" => a.dot(&b),
-        "vdot" => a.vdot(&b),
-        "inner" => a.inner(&b),
-        "outer" => a.outer(&b),
-        _ => return None,
-    };
-    Some(match r {
-        Ok(arr) => {
-            if !consistent(&arr) { Err(format!("result violates shape/length consistency: shape {:?}, {} elements", arr.get_shape().unwrap(), arr.get_elements().unwrap().len())) }
-            else { show_int_arr(&arr).map(|s| format!("ok {s}")) }
+    // ---- stream 3a: element types i8 / i16 / f32 (+ the three above) on the seeded conforming and off-by-one pairs, lengths 1..5
+    for _ in 0..(if thorough { 30000 } else { 4000 }) {
+        let (mut sa, mut sb) = conforming(&mut rng, 5);
+        if rng.below(5) == 0 {
+            let which = rng.below(sa.len() + sb.len());
+            let tgt = if which < sa.len() { &mut sa[which] } else { &mut sb[which - sa.len()] };
+            *tgt = if *tgt == 1 { 2 } else if rng.below(2) == 0 { *tgt - 1 } else { *tgt + 1 };
         }
-        Err(e) => Ok(format!("err {}", err_name(&e))),
-    })
+        let op = if rng.below(3) == 0 { *rng.pick(&OPS) } else { *rng.pick(&["matmul", "matmul", "dot", "inner"]) };
+        let ty = *rng.pick(&["i16", "i8", "f32", "i16", "i8", "f32", "i32", "i64", "f64"]);
+        let (lo, hi) = small_range(ty, 5);
+        out(format!("{op} {ty} {} {}", rand_arr_in(&mut rng, &sa, lo, hi), rand_arr_in(&mut rng, &sb, lo, hi)));
+    }
+    // ---- stream 1a: contracted lengths 6..9 for every family and element type, outer lengths 1..3
+    for m in 6..=9 { for _ in 0..reps {
+        let (n, p, s) = (1 + rng.below(3), 1 + rng.below(3), 1 + rng.below(3));
+        for (op, sa, sb) in families(n, m, p, s) { for ty in INT_TYS {
+            let (lo, hi) = small_range(ty, m);
+            out(format!("{op} {ty} {} {}", rand_arr_in(&mut rng, &sa, lo, hi), rand_arr_in(&mut rng, &sb, lo, hi)));
+        } }
+        // tag data (distinct entries), the wide types only
+        for (op, sa, sb) in families(n, m, p, s) { t += 1; out(format!("{op} {} {} {}", TYS[t % 3], tag_off(&sa, 1), tag_off(&sb, 100))); }
+        // contracted lengths that differ by one / are swapped: refused
+        for (op, sa, sb) in families(n, m, p, s) { let mut sb2 = sb.clone(); let k = sb2.iter().position(|&d| d == m).unwrap_or(0); sb2[k] = m - 1;
+            t += 1; out(format!("{op} {} {} {}", INT_TYS[t % 6], rand_arr_in(&mut rng, &sa, 0, 1), rand_arr_in(&mut rng, &sb2, 0, 1))); }
+    } }
+    // ---- stream 1b: a few contracted lengths up to 70 (and axis lengths 7-17 in the outer positions)
+    for m in [12usize, 16, 17, 33, 64, 65, 70] { for _ in 0..reps {
+        let (n, p, s) = (1 + rng.below(2), 1 + rng.below(2), 2);
+        for (op, sa, sb) in families(n, m, p, s) { t += 1; let ty = INT_TYS[t % 6];
+            let (lo, hi) = small_range(ty, m);
+            out(format!("{op} {ty} {} {}", rand_arr_in(&mut rng, &sa, lo, hi), rand_arr_in(&mut rng, &sb, lo, hi)));
+            if m >= 64 { let ty = INT_TYS[(t + 3) % 6]; let (lo, hi) = small_range(ty, m);
+                out(format!("{op} {ty} {} {}", rand_arr_in(&mut rng, &sa, lo, hi), rand_arr_in(&mut rng, &sb, lo, hi))); }
+        }
+    } }
+    // ---- stream 1c: big operands: axis lengths 7..17 in every position, results and operands with > 256 / 1024 / 4096 elements
+    for (op, sa, sb) in [
+        ("matmul", vec![9usize, 9], vec![9usize, 9]), ("matmul", vec![17, 16], vec![16, 17]), ("matmul", vec![16, 17], vec![17, 8]), ("matmul", vec![8, 3], vec![3, 9]),
+        ("matmul", vec![40, 30], vec![30, 40]), ("matmul", vec![7, 70], vec![70, 7]), ("matmul", vec![70, 2], vec![2, 70]),
+        ("matmul", vec![8, 3, 9], vec![8, 9, 2]), ("matmul", vec![2, 8, 3], vec![2, 3, 8]), ("matmul", vec![3, 2, 8], vec![8, 7]), ("matmul", vec![7, 8], vec![3, 8, 2]),
+        ("matmul", vec![17], vec![17, 16]), ("matmul", vec![16, 17], vec![17]), ("matmul", vec![300], vec![300, 4]), ("matmul", vec![4, 1030], vec![1030]),
+        ("matmul", vec![4100], vec![4100]), ("vdot", vec![4100], vec![4100]), ("vdot", vec![70, 70], vec![4900]), ("vdot", vec![40, 30], vec![30, 40]), ("vdot", vec![4, 4, 4, 4], vec![256]),
+        ("dot", vec![1030], vec![1030]), ("dot", vec![16, 16], vec![16, 16]), ("dot", vec![9, 17], vec![17, 9]), ("dot", vec![17], vec![17, 9]), ("dot", vec![9, 17], vec![17]),
+        ("inner", vec![300], vec![300]), ("inner", vec![17, 16], vec![9, 16]), ("inner", vec![2, 8, 3], vec![7, 3]), ("inner", vec![40, 30], vec![40, 30]), ("inner", vec![5, 5, 5, 5], vec![2, 5]),
+        ("outer", vec![64], vec![65]), ("outer", vec![100], vec![41]), ("outer", vec![9, 9], vec![8, 3]), ("outer", vec![17], vec![16]), ("outer", vec![4100], vec![1]), ("outer", vec![2], vec![1030]),
+        ("matmul", vec![2, 3, 4, 5, 2], vec![2, 3, 4, 2, 5]), ("matmul", vec![7, 1, 9], vec![7, 9, 1]), ("matmul", vec![1, 16, 1, 17], vec![1, 16, 17, 1]),
+    ] {
+        for ty in ["i64", "f64", "i32", "i16", "i8", "f32"] {
+            let m = sa.iter().product::<usize>().min(sb.iter().product::<usize>());
+            let (lo, hi) = if op == "outer" { small_range(ty, 1) } else if m > 127 && ty == "i8" { (0, 1) } else if m > 70 && ty == "i16" { (-2, 2) } else { small_range(ty, m.min(70)) };
+            out(format!("{op} {ty} {} {}", rand_arr_in(&mut rng, &sa, lo, hi), rand_arr_in(&mut rng, &sb, lo, hi)));
+        }
+    }
+    // ---- stream 2: zero-length axes: every operation, zero shapes against zero shapes and against small vectors / matrices / stacks
+    let zs: Vec<Vec<usize>> = zero_shapes().into_iter().chain(vec![vec![0usize, 3], vec![3, 0], vec![2, 0, 2]]).collect();
+    let partners: Vec<Vec<usize>> = vec![vec![1], vec![2], vec![3], vec![2, 3], vec![3, 2], vec![1, 1], vec![2, 3, 2], vec![2, 2, 3]];
+    for za in &zs {
+        for sb in zs.iter().chain(partners.iter()) { for op in OPS {
+            t += 1; out(format!("{op} {} {} {}", INT_TYS[t % 6], tag(za), tag_off(sb, 1)));
+            if !zs.contains(sb) { t += 1; out(format!("{op} {} {} {}", INT_TYS[t % 6], tag_off(sb, 1), tag(za))); }
+        } }
+    }
+    // ---- stream 3b: integer value classes.  Cancelling pairs whose single products leave the element type (i16 / i32) or even i64
+    // while every entry of the product is small; entries that land exactly on / next to the limits of i8, i16 and i32
+    for _ in 0..(if thorough { 3000 } else { 400 }) {
+        let ty = *rng.pick(&["i8", "i16", "i32", "i64", "i16", "i32", "i64", "f32", "f64"]);
+        let wide = ty == "i64" || ty == "f64";
+        let mmax = if rng.below(6) == 0 { 8 } else { 4 };
+        let m = 2 + rng.below(mmax);
+        let (n, p, s) = (1 + rng.below(3), 1 + rng.below(3), 1 + rng.below(2));
+        let fams = families(n, m, p, s);
+        let (op, sa, sb) = rng.pick(&fams).clone();
+        // i64: the two big products must be neighbours in the sum, otherwise 2^70 + 3 is not representable on the way
+        // and nothing may have been accumulated before them: the entries of a in front of the pair are 0
+        let k1 = rng.below(m - 1); let k2 = if wide { k1 + 1 } else { k1 + 1 + rng.below(m - 1 - k1) };
+        let big = |rng: &mut Rng| -> i64 { let v = match ty {
+            "i8" => rng.range(12, 15), "i16" => rng.range(182, 300), "i32" => rng.range(46341, 100000), "f32" => rng.range(4097, 16000),
+            _ => (1i64 << rng.range(32, 40)) * rng.range(1, 3) }; if rng.below(2) == 0 { -v } else { v } };
+        let (ra, rb): (usize, usize) = (sa.iter().product::<usize>() / m, sb.iter().product::<usize>() / m);
+        // operand a is always a pile of rows of length m; operand b is a pile of rows (inner, vdot on vectors) or of [m, p] matrices
+        let b_rows = op == "inner" || sb.len() == 1 || op == "vdot";
+        if op == "vdot" && sa.len() > 1 { continue; }
+        let mut a = vec![0i64; ra * m]; let mut b = vec![0i64; rb * m];
+        for r in 0..ra { let x = big(&mut rng); for k in 0..m { a[r * m + k] = if k == k1 { x } else if k == k2 { -x } else if wide && k < k1 { 0 } else { rng.range(-3, 3) }; } }
+        if b_rows { for c in 0..rb { let y = big(&mut rng); for k in 0..m { b[c * m + k] = if k == k1 || k == k2 { y } else { rng.range(-3, 3) }; } } }
+        else { let pp = *sb.last().unwrap(); let mats = rb / pp;
+            for q in 0..mats { for j in 0..pp { let y = big(&mut rng); for k in 0..m { b[q * m * pp + k * pp + j] = if k == k1 || k == k2 { y } else { rng.range(-3, 3) }; } } } }
+        out(format!("{op} {ty} {} {}", lit(&sa, &a), lit(&sb, &b)));
+    }
+    for (ty, lim) in [("i8", 127i64), ("i8", -128), ("i16", 32767), ("i16", -32768), ("i32", 2147483647), ("i32", -2147483648), ("f32", 16777216), ("f64", 9007199254740992), ("i64", 9007199254740992)] {
+        // factorisations x*y + r with the sum exactly on the limit, one below, one beyond (the last is outside the statement: open)
+        for d in [-1i64, 0, 1] { for _ in 0..(2 * reps) {
+            let target = lim - d * lim.signum();
+            let x = match ty { "i8" => rng.range(2, 11), "i16" => rng.range(2, 181), "i32" | "f32" => rng.range(2, 4000), _ => rng.range(2, 90000000) };
+            let (y, r) = (target / x, target % x);
+            if ty == "i8" && y.abs() > 127 { continue; }
+            if ty == "i16" && y.abs() > 32767 { continue; }
+            let m = 2 + rng.below(3);
+            let mut a = vec![0i64; m]; let mut b = vec![0i64; m];
+            let k = rng.below(m); let k2 = (k + 1) % m; a[k] = x; b[k] = y; a[k2] = if r < 0 { -1 } else { 1 }; b[k2] = r.abs();
+            if (ty == "i8" && b[k2] > 127) || (ty == "i16" && b[k2] > 32767) { continue; }
+            for op in ["vdot", "matmul", "inner", "dot"] { out(format!("{op} {ty} {} {}", lit(&[m], &a), lit(&[m], &b))); }
+            out(format!("matmul {ty} {} {}", lit(&[1, m], &a), lit(&[m, 1], &b)));
+            out(format!("matmul {ty} {} {}", lit(&[m], &a), lit(&[m, 1], &b)));
+            out(format!("matmul {ty} {} {}", lit(&[1, m], &a), lit(&[m], &b)));
+        } }
+    }
+    // ---- stream 3c: float value classes (class-coded operands): one special value aimed at a factor that is really multiplied,
+    // its partner from every class; then operands drawn at random from the whole table
+    let mut paths: Vec<(&str, Vec<usize>, Vec<usize>)> = families(2, 3, 2, 2);
+    paths.extend(families(1, 2, 1, 1)); paths.extend(families(2, 2, 2, 2));
+    paths.extend(vec![("outer", vec![2], vec![3]), ("outer", vec![2, 2], vec![2]), ("dot", vec![1], vec![2, 2]), ("dot", vec![2, 3], vec![1, 1]),
+                      ("matmul", vec![2, 9], vec![9, 2]), ("vdot", vec![70], vec![70]), ("matmul", vec![1, 70], vec![70, 1]), ("matmul", vec![70], vec![70, 2]), ("matmul", vec![2, 70], vec![70]), ("inner", vec![2, 17], vec![1, 17])]);
+    for fty in ["f64c", "f32c"] {
+        for (op, sa, sb) in &paths { for ca in N_ORD..NCLS {
+            let partners: Vec<usize> = if thorough { (0..NCLS).collect() } else { let mut v = vec![13usize, 4]; for _ in 0..3 { v.push(rng.below(NCLS)); } v };
+            for cb in partners {
+                let swap = rng.below(2) == 0;
+                if let Some((a, b)) = if swap { paired_case(&mut rng, op, sa, sb, cb, ca) } else { paired_case(&mut rng, op, sa, sb, ca, cb) } { out(format!("{op} {fty} {a} {b}")); }
+            }
+        } }
+        for _ in 0..(if thorough { 40000 } else { 3000 }) {
+            let ml = if rng.below(8) == 0 { 9 } else { 4 };
+            let (sa, sb) = conforming(&mut rng, ml);
+            let op = if rng.below(3) == 0 { *rng.pick(&OPS) } else { *rng.pick(&["matmul", "matmul", "dot", "inner"]) };
+            let heavy = rng.below(3) == 0;     // mostly ordinary entries with a few special ones, or every entry from the whole table
+            let pickc = |rng: &mut Rng| if heavy || rng.below(6) == 0 { rng.below(NCLS) } else { ordinary(rng) };
+            let a: Vec<usize> = (0..sa.iter().product::<usize>()).map(|_| pickc(&mut rng)).collect();
+            let b: Vec<usize> = (0..sb.iter().product::<usize>()).map(|_| pickc(&mut rng)).collect();
+            out(format!("{op} {fty} {} {}", cls_lit(&sa, &a), cls_lit(&sb, &b)));
+        }
+    }
 }
 
-fn build<T: NumericOps>(s: &str, conv: impl Fn(i64) -> T) -> Array<T> {
-    let (shape, elems) = parse_arr_raw(s);
-    Array::new(elems.into_iter().map(conv).collect(), shape).expect("harness: malformed array literal in case line")
+// ------------------------------------------------------------------------------------------------ independent reference
+
+/// how the code documents the accumulation of one entry
+#[derive(Clone, Copy, PartialEq, Debug)]
+enum Acc { Single, MulFold, IterSum, Fma }
+
+/// the textbook definition, by index formulas: for every entry of the result the list of (flat index in a, flat index in b) factor
+/// pairs in the order of the shared index
+enum Ref { NotCovered, Refuse, Terms { shape: Vec<usize>, entries: Vec<Vec<(usize, usize)>>, acc: Acc } }
+
+fn reference(op: &str, sa: &[usize], sb: &[usize]) -> Ref {
+    if sa.is_empty() || sb.is_empty() || sa.iter().chain(sb.iter()).any(|&d| d == 0) { return Ref::NotCovered; }
+    let (la, lb): (usize, usize) = (sa.iter().product(), sb.iter().product());
+    let (ra, rb) = (sa.len(), sb.len());
+    let rows = |n: usize, m: usize, p: usize, offa: usize, offb: usize| -> Vec<Vec<(usize, usize)>> {       // [n,m] x [m,p]
+        let mut e = vec![]; for i in 0..n { for j in 0..p { e.push((0..m).map(|k| (offa + i * m + k, offb + k * p + j)).collect()); } } e };
+    let vd = || if la == lb { Ref::Terms { shape: vec![1], entries: vec![(0..la).map(|k| (k, k)).collect()], acc: Acc::MulFold } } else { Ref::Refuse };
+    match op {
+        "vdot" => vd(),
+        "outer" => { let mut e = vec![]; for i in 0..la { for j in 0..lb { e.push(vec![(i, j)]); } } Ref::Terms { shape: vec![la, lb], entries: e, acc: Acc::Single } }
+        "inner" => {
+            let m = sa[ra - 1]; if m != sb[rb - 1] { return Ref::Refuse; }
+            let (na, nb) = (la / m, lb / m);
+            let shape = if ra == 1 && rb == 1 { vec![1] } else { sa[..ra - 1].iter().chain(sb[..rb - 1].iter()).cloned().collect() };
+            let mut e = vec![]; for r in 0..na { for c in 0..nb { e.push((0..m).map(|k| (r * m + k, c * m + k)).collect()); } }
+            Ref::Terms { shape, entries: e, acc: Acc::MulFold }
+        }
+        "matmul" => match (ra, rb) {
+            (1, 1) => vd(),
+            (1, 2) => if sa[0] == sb[0] { Ref::Terms { shape: vec![sb[1]], entries: rows(1, sa[0], sb[1], 0, 0), acc: Acc::IterSum } } else { Ref::Refuse },
+            (2, 1) => if sa[1] == sb[0] { Ref::Terms { shape: vec![sa[0]], entries: rows(sa[0], sa[1], 1, 0, 0), acc: Acc::IterSum } } else { Ref::Refuse },
+            (2, 2) => if sa[1] == sb[0] { Ref::Terms { shape: vec![sa[0], sb[1]], entries: rows(sa[0], sa[1], sb[1], 0, 0), acc: Acc::Fma } } else { Ref::Refuse },
+            (3, 3) | (3, 2) | (2, 3) => {
+                let (s1, n, m) = if ra == 3 { (sa[0], sa[1], sa[2]) } else { (1, sa[0], sa[1]) };
+                let (s2, m2, p) = if rb == 3 { (sb[0], sb[1], sb[2]) } else { (1, sb[0], sb[1]) };
+                if m != m2 { return Ref::Refuse; }
+                if ra == 3 && rb == 3 && s1 != s2 { return Ref::NotCovered; }
+                let s = s1.max(s2);
+                let mut e = vec![];
+                for q in 0..s { e.extend(rows(n, m, p, if ra == 3 { q * n * m } else { 0 }, if rb == 3 { q * m * p } else { 0 })); }
+                Ref::Terms { shape: vec![s, n, p], entries: e, acc: Acc::Fma }
+            }
+            _ => Ref::NotCovered,
+        },
+        "dot" => {
+            if la == 1 || lb == 1 {
+                // one-element operand: scales the other one; result shape by right-aligned broadcasting
+                let r = ra.max(rb);
+                let pad = |s: &[usize]| { let mut v = vec![1usize; r - s.len()]; v.extend_from_slice(s); v };
+                let shape: Vec<usize> = pad(sa).iter().zip(pad(sb).iter()).map(|(&x, &y)| if x == 1 { y } else { x }).collect();
+                let e = if la == 1 { (0..lb).map(|j| vec![(0, j)]).collect() } else { (0..la).map(|i| vec![(i, 0)]).collect() };
+                return Ref::Terms { shape, entries: e, acc: Acc::Single };
+            }
+            match (ra, rb) {
+                (1, 1) => vd(),
+                (2, 2) => if sa[1] != sb[0] { Ref::Refuse } else if sa[0] == sb[1] { Ref::Terms { shape: vec![sa[0], sb[1]], entries: rows(sa[0], sa[1], sb[1], 0, 0), acc: Acc::Fma } }
+                          else { Ref::NotCovered },        // rectangular result: region of the open finding, judged by the model/driver pair
+                (1, 2) => if sa[0] == sb[0] { Ref::Terms { shape: vec![sb[1]], entries: rows(1, sa[0], sb[1], 0, 0), acc: Acc::MulFold } } else { Ref::Refuse },
+                (2, 1) => if sa[1] == sb[0] { Ref::Terms { shape: vec![sa[0]], entries: rows(sa[0], sa[1], 1, 0, 0), acc: Acc::MulFold } } else { Ref::Refuse },
+                _ => Ref::NotCovered,
+            }
+        }
+        _ => Ref::NotCovered,
+    }
 }
 
-fn exec(op: &str, args: &[&str], expected: &str) -> Option<Verdict> {
-    if args.len() != 3 || !OPS.contains(&op) { return None; }
-    let (ty, sa, sb) = (args[0], args[1], args[2]);
-    if !TYS.contains(&ty) { return None; }
-    let mut note: Option<String> = None;
-    let observed = {
-        let note = &mut note;
-        guarded(move || {
-            let r = match ty {
-                "i32" => run(op, build(sa, |x| x as i32), build(sb, |x| x as i32)),
-                "i64" => run(op, build(sa, |x| x), build(sb, |x| x)),
-                _ => run(op, build(sa, |x| x as f64), build(sb, |x| x as f64)),
-            };
-            match r { Some(Ok(s)) => s, Some(Err(d)) => { *note = Some(d); "ok <malformed>".to_string() } None => "bad-op".to_string() }
+/// one entry of the float reference: f64 accumulation as documented for the path
+fn accumulate(acc: Acc, terms: &[(f64, f64)]) -> f64 {
+    match acc {
+        Acc::Single => terms[0].0 * terms[0].1,
+        Acc::MulFold => terms.iter().map(|&(x, y)| x * y).fold(0., |a, b| a + b),
+        Acc::IterSum => terms.iter().map(|&(x, y)| x * y).sum::<f64>(),
+        Acc::Fma => terms.iter().fold(0., |acc, &(x, y)| x.mul_add(y, acc)),
+    }
+}
+
+fn exact_f64(v: i128) -> bool { let f = v as f64; f.is_finite() && f.abs() < 1.0e38 && (f as i128) == v }
+
+/// exact integer sums of the entries (i128), and whether every product and every partial sum is exactly representable in f64
+fn exact_sums(entries: &[Vec<(usize, usize)>], a: &[i64], b: &[i64]) -> Option<(Vec<i128>, bool)> {
+    let mut out = vec![]; let mut exact = true;
+    for e in entries {
+        let mut s: i128 = 0;
+        for &(i, j) in e {
+            let p = (a[i] as i128).checked_mul(b[j] as i128)?;
+            s = s.checked_add(p)?;
+            if !exact_f64(p) || !exact_f64(s) { exact = false; }
+        }
+        out.push(s);
+    }
+    Some((out, exact))
+}
+
+// ------------------------------------------------------------------------------------------------ executor
+
+trait Num: NumericOps {
+    fn of_i64(v: i64) -> Option<Self>;
+    /// the entry as an exact integer (None: not an integer)
+    fn int(&self) -> Option<i128>;
+    fn cast(f: f64) -> Self;
+    fn f(&self) -> f64;
+}
+macro_rules! num_int { ($t:ty) => { impl Num for $t {
+    fn of_i64(v: i64) -> Option<Self> { <$t>::try_from(v).ok() }
+    fn int(&self) -> Option<i128> { Some(*self as i128) }
+    fn cast(f: f64) -> Self { f as $t }
+    fn f(&self) -> f64 { *self as f64 }
+} } }
+num_int!(i16); num_int!(i32); num_int!(i64); num_int!(i8);
+impl Num for f64 {
+    fn of_i64(v: i64) -> Option<Self> { if exact_f64(v as i128) { Some(v as f64) } else { None } }
+    fn int(&self) -> Option<i128> { if self.is_finite() && self.fract() == 0.0 && self.abs() < 1.0e30 { Some(*self as i128) } else { None } }
+    fn cast(f: f64) -> Self { f }
+    fn f(&self) -> f64 { *self }
+}
+impl Num for f32 {
+    fn of_i64(v: i64) -> Option<Self> { let f = v as f32; if (f as i128) == v as i128 { Some(f) } else { None } }
+    fn int(&self) -> Option<i128> { if self.is_finite() && self.fract() == 0.0 && self.abs() < 1.0e30 { Some(*self as i128) } else { None } }
+    fn cast(f: f64) -> Self { f as f32 }
+    fn f(&self) -> f64 { *self as f64 }
+}
+fn fits<N: Num>(v: i128) -> bool { i64::try_from(v).ok().and_then(N::of_i64).is_some() }
+
+enum Real<N: Num> { Panic, Err(&'static str), Ok(Array<N>) }
+
+fn call<N: Num>(op: &str, a: &Array<N>, b: &Array<N>, chained: bool) -> Option<Real<N>> {
+    let r = catch_unwind(AssertUnwindSafe(|| -> Option<Result<Array<N>, ArrayError>> {
+        let ra: Result<Array<N>, ArrayError> = Ok(a.clone());
+        Some(match (op, chained) {
+            ("matmul", false) => a.matmul(b), ("matmul", true) => ra.matmul(b),
+            ("dot", false) => a.dot(b), ("dot", true) => ra.dot(b),
+            ("vdot", false) => a.vdot(b), ("vdot", true) => ra.vdot(b),
+            ("inner", false) => a.inner(b), ("inner", true) => ra.inner(b),
+            ("outer", false) => a.outer(b), ("outer", true) => ra.outer(b),
+            _ => return None,
         })
-    };
-    if let Some(d) = note { return Some(Verdict::Mismatch { observed, detail: d }); }
+    }));
+    Some(match r { Err(_) => Real::Panic, Ok(None) => return None, Ok(Some(Err(e))) => Real::Err(err_name(&e)), Ok(Some(Ok(x))) => Real::Ok(x) })
+}
+
+/// integer text of a real outcome; `Err(detail)` when the result is malformed or holds a non-integer
+fn int_text<N: Num>(r: &Real<N>) -> Result<String, String> {
+    match r {
+        Real::Panic => Ok("panic".into()), Real::Err(e) => Ok(format!("err {e}")),
+        Real::Ok(arr) => {
+            if !consistent(arr) { return Err(format!("result violates shape/length consistency: shape {:?}, {} elements", arr.get_shape().unwrap(), arr.get_elements().unwrap().len())); }
+            let mut es = vec![];
+            for v in arr.get_elements().unwrap() { match v.int() { Some(i) => es.push(i), None => return Err(format!("non-integer entry {}", v.f())) } }
+            Ok(format!("ok {}:{}", show_list(&arr.get_shape().unwrap()), show_list(&es)))
+        }
+    }
+}
+
+fn parse_ok(expected: &str) -> Option<(Vec<usize>, Vec<i128>)> {
+    let body = expected.strip_prefix("ok ")?; let (sh, el) = body.split_once(':')?;
+    let shape = parse_usize_list(sh);
+    let elems = if el == "-" { vec![] } else { el.split(',').map(|x| x.parse::<i128>().ok()).collect::<Option<Vec<_>>>()? };
+    Some((shape, elems))
+}
+
+fn exec_int<N: Num>(op: &str, ty: &str, sa: &str, sb: &str, expected: &str) -> Option<Verdict> {
+    let ((sha, ea), (shb, eb)) = (parse_arr_raw(sa), parse_arr_raw(sb));
+    let va: Vec<N> = ea.iter().map(|&v| N::of_i64(v)).collect::<Option<_>>()?;
+    let vb: Vec<N> = eb.iter().map(|&v| N::of_i64(v)).collect::<Option<_>>()?;
+    let a = Array::new(va, sha.clone()).expect("harness: malformed array literal in case line");
+    let b = Array::new(vb, shb.clone()).expect("harness: malformed array literal in case line");
+    let plain = call(op, &a, &b, false)?; let chained = call(op, &a, &b, true)?;
+    let observed = match int_text(&plain) { Ok(s) => s, Err(d) => return Some(Verdict::Mismatch { observed: "ok <malformed>".into(), detail: d }) };
+    match int_text(&chained) {
+        Ok(c) if c == observed => {}
+        Ok(c) => return Some(Verdict::Mismatch { observed: format!("RECEIVER-DIVERGENCE chained call gives `{}`, plain call `{}`", truncate(&c, 300), truncate(&observed, 300)), detail: "the call on Ok(array) through the Result receiver differs from the plain call".into() }),
+        Err(d) => return Some(Verdict::Mismatch { observed: "RECEIVER-DIVERGENCE chained call gives a malformed result".into(), detail: d }),
+    }
     if expected == "open" { return Some(Verdict::Open(observed)); }
+    // zero-length axes are outside the statement (lengths 1..): the real crate refuses most empty operands (`zip` / `broadcast` of an
+    // empty array is an error) where the model, which has no such arm, returns the empty sum.  Held to: no divergence between the
+    // receivers (above), and the model's answer whenever the crate does return a value or panics; a refusal is left open
+    if sha.iter().chain(shb.iter()).any(|&d| d == 0) && class_of(&observed) == "err" && (class_of(expected) == "ok" || expected.contains(" | matmul ")) { return Some(Verdict::Open(observed)); }
     // region of the open finding C14-dot-2d-rectangular-refused: the model mirrors the test-pinned refusal of `dot`,
     // the driver sends the textbook product along; the real code is held to the property (the product), not to the model
     if let Some((model, want)) = expected.split_once(" | matmul ") {
         return Some(if observed == want { Verdict::Match(observed) } else {
             Verdict::Mismatch { observed, detail: format!("dot of two conforming matrices whose product is not square: the property demands `{}`; the model, mirroring the refusal pinned by products_test::test_linalg_dot::case_15, says `{}`", truncate(want, 300), model) } });
     }
+    // the independent reference: (1) it must agree with the model, (2) it says whether the case lies inside the statement
+    // (defining sums representable: every product / partial sum exact in f64, every entry inside the element type)
+    let narrow = !TYS.contains(&ty);
+    match reference(op, &sha, &shb) {
+        Ref::Refuse => { if class_of(expected) != "err" { return None; } }
+        Ref::Terms { shape, entries, .. } => {
+            match exact_sums(&entries, &ea, &eb) {
+                Some((sums, exact)) => {
+                    match parse_ok(expected) { Some((msh, mel)) => { if msh != shape || mel != sums { return None; } } None => return None }
+                    if !exact || !sums.iter().all(|&s| fits::<N>(s)) { return Some(Verdict::Open(observed)); }
+                }
+                None => return Some(Verdict::Open(observed)),
+            }
+        }
+        Ref::NotCovered => {
+            // no term lists: a sufficient bound (number of terms x largest product) for the narrow element types
+            if narrow {
+                let (ma, mb) = (ea.iter().map(|v| v.unsigned_abs()).max().unwrap_or(0) as i128, eb.iter().map(|v| v.unsigned_abs()).max().unwrap_or(0) as i128);
+                let bound = (ea.len().max(eb.len()).max(1) as i128) * ma * mb;
+                if !fits::<N>(bound) { return Some(Verdict::Open(observed)); }
+            }
+        }
+    }
     Some(compare_default(observed, expected))
+}
+
+// ---- class-coded float operands
+
+fn p2(e: i32) -> f64 { 2f64.powi(e) }
+fn f64_class(c: usize) -> f64 {
+    match c {
+        0 => 0.0, 1 => -0.0, 2 => 1.0, 3 => -1.0, 4 => 2.0, 5 => 0.5, 6 => 3.0, 7 => -2.0,
+        8 => 5e-324, 9 => -5e-324, 10 => p2(-1030), 11 => 3.0 * p2(-1060), 12 => f64::MIN_POSITIVE, 13 => p2(1023), 14 => -p2(1023), 15 => p2(1000),
+        16 => p2(512), 17 => p2(-512), 18 => f64::INFINITY, 19 => f64::NEG_INFINITY, 20 => f64::NAN, 21 => f64::MAX, 22 => 0.1, 23 => 1.0 / 3.0,
+        24 => 123456.789, 25 => 1e-3, 26 => 9007199254740991.0, 27 => 1e300, 28 => p2(30), _ => p2(-30),
+    }
+}
+fn f32_class(c: usize) -> f32 {
+    match c {
+        0 => 0.0, 1 => -0.0, 2 => 1.0, 3 => -1.0, 4 => 2.0, 5 => 0.5, 6 => 3.0, 7 => -2.0,
+        8 => 1e-45, 9 => -1e-45, 10 => 2f32.powi(-130), 11 => 3.0 * 2f32.powi(-145), 12 => f32::MIN_POSITIVE, 13 => 2f32.powi(127), 14 => -2f32.powi(127), 15 => 2f32.powi(100),
+        16 => 2f32.powi(64), 17 => 2f32.powi(-64), 18 => f32::INFINITY, 19 => f32::NEG_INFINITY, 20 => f32::NAN, 21 => f32::MAX, 22 => 0.1, 23 => 1.0 / 3.0,
+        24 => 123456.79, 25 => 1e-3, 26 => 16777215.0, 27 => 1e30, 28 => 2f32.powi(30), _ => 2f32.powi(-30),
+    }
+}
+
+fn same_number(x: f64, y: f64) -> bool { x == y || (x.is_nan() && y.is_nan()) }
+
+fn exec_cls<N: Num>(op: &str, sa: &str, sb: &str, expected: &str, table: fn(usize) -> N) -> Option<Verdict> {
+    let ((sha, ea), (shb, eb)) = (parse_arr_raw(sa), parse_arr_raw(sb));
+    if ea.iter().chain(eb.iter()).any(|&c| c < 0 || c as usize >= NCLS) { return None; }
+    let va: Vec<N> = ea.iter().map(|&c| table(c as usize)).collect();
+    let vb: Vec<N> = eb.iter().map(|&c| table(c as usize)).collect();
+    let a = Array::new(va.clone(), sha.clone()).expect("harness: malformed array literal in case line");
+    let b = Array::new(vb.clone(), shb.clone()).expect("harness: malformed array literal in case line");
+    let plain = call(op, &a, &b, false)?; let chained = call(op, &a, &b, true)?;
+    let brief = |r: &Real<N>| match r { Real::Panic => "panic".to_string(), Real::Err(e) => format!("err {e}"),
+        Real::Ok(x) => format!("ok {}:<{} float entries>", show_list(&x.get_shape().unwrap()), x.get_elements().unwrap().len()) };
+    let observed = brief(&plain);
+    // both receivers: same outcome, same numbers
+    let rec_same = match (&plain, &chained) {
+        (Real::Ok(x), Real::Ok(y)) => x.get_shape().unwrap() == y.get_shape().unwrap() && { let (p, q) = (x.get_elements().unwrap(), y.get_elements().unwrap()); p.len() == q.len() && p.iter().zip(q.iter()).all(|(u, v)| same_number(u.f(), v.f())) },
+        (p, q) => brief(p) == brief(q),
+    };
+    if !rec_same { return Some(Verdict::Mismatch { observed: format!("RECEIVER-DIVERGENCE chained call gives `{}`, plain call `{}`", brief(&chained), observed), detail: "the call on Ok(array) through the Result receiver differs from the plain call".into() }); }
+    if expected == "open" { return Some(Verdict::Open(observed)); }
+    let expected = expected.split_once(" | matmul ").map_or(expected, |(m, _)| m);
+    let r = reference(op, &sha, &shb);
+    match (&plain, &r) {
+        (Real::Ok(x), Ref::Terms { shape, entries, acc }) => {
+            if !consistent(x) { return Some(Verdict::Mismatch { observed, detail: "result violates shape/length consistency".into() }); }
+            // the model (run on the codes) must accept and give the same shape as the reference
+            match parse_ok(expected) { Some((msh, _)) => if &msh != shape { return None; }, None => return None }
+            let got = x.get_elements().unwrap();
+            if &x.get_shape().unwrap() != shape || got.len() != entries.len() {
+                return Some(Verdict::Mismatch { observed, detail: format!("the defining formula gives shape {:?}", shape) });
+            }
+            for (k, e) in entries.iter().enumerate() {
+                let terms: Vec<(f64, f64)> = e.iter().map(|&(i, j)| (va[i].f(), vb[j].f())).collect();
+                let want = N::cast(accumulate(*acc, &terms)).f();
+                if !same_number(got[k].f(), want) {
+                    return Some(Verdict::Mismatch { observed: format!("ok {}:<entry {k} is {:e}, its defining sum is {:e}>", show_list(shape), got[k].f(), want), detail: format!("entry {k} is {:e}; the defining sum over the shared index ({} products {:?}, accumulated in f64 {:?}, converted once) is {:e}", got[k].f(), terms.len(), &terms[..terms.len().min(9)], acc, want) });
+                }
+            }
+            Some(Verdict::Match(observed))
+        }
+        (Real::Err(_), Ref::Refuse) => { if class_of(expected) != "err" { return None; } Some(Verdict::Match(observed)) }
+        (_, Ref::Refuse) => { if class_of(expected) != "err" { return None; } Some(Verdict::Mismatch { observed, detail: "contracted lengths differ: the call must be refused with an error".into() }) }
+        (_, Ref::Terms { shape, .. }) => Some(Verdict::Mismatch { observed, detail: format!("the operands conform: the defining formula gives a result of shape {:?}", shape) }),
+        // no reference for this arm: outcome class and shape against the model
+        (Real::Ok(x), Ref::NotCovered) => Some(match parse_ok(expected) {
+            Some((msh, _)) if msh == x.get_shape().unwrap() => Verdict::Match(observed),
+            _ => Verdict::Mismatch { observed, detail: format!("model says `{}`", truncate(expected, 200)) } }),
+        (_, Ref::NotCovered) => Some(compare_default(observed, expected)),
+    }
+}
+
+fn exec(op: &str, args: &[&str], expected: &str) -> Option<Verdict> {
+    if args.len() != 3 || !OPS.contains(&op) { return None; }
+    let (ty, sa, sb) = (args[0], args[1], args[2]);
+    match ty {
+        "i16" => exec_int::<i16>(op, ty, sa, sb, expected),
+        "i32" => exec_int::<i32>(op, ty, sa, sb, expected),
+        "i64" => exec_int::<i64>(op, ty, sa, sb, expected),
+        "i8" => exec_int::<i8>(op, ty, sa, sb, expected),
+        "f32" => exec_int::<f32>(op, ty, sa, sb, expected),
+        "f64" => exec_int::<f64>(op, ty, sa, sb, expected),
+        "f64c" => exec_cls::<f64>(op, sa, sb, expected, f64_class),
+        "f32c" => exec_cls::<f32>(op, sa, sb, expected, f32_class),
+        _ => None,
+    }
 }
 
 /// non-trivial: both operands have more than one element (so a sum over a shared index or a refusal is at stake)
@@ -194,5 +631,5 @@ fn nontrivial(_op: &str, args: &[&str]) -> bool {
 
 fn main() {
     harness_main(Spec { prop: "C14", gen, exec, nontrivial, hang_secs: 20,
-        rule: "corpus of defect witnesses; exhaustive: every ordered pair of shapes among vectors [n], matrices [n,m], stacks [s,n,m] with lengths 1..3 x {matmul,dot,vdot,inner,outer} x {tag data, signed pseudo-random data} (element types i32/i64/f64 in rotation quick, all three thorough); every vector/matrix pair with lengths up to 4 (quick) / 5 (thorough) for matmul, dot, inner; thorough: every vector/matrix/stack pair with lengths up to 4 x 5 operations (tag data); rank-4 and one-element operands; + seeded random conforming pairs (lengths 1..5, all arms incl. broadcast stacks) + malformed stream (one axis length off by one, unrelated shapes). distinct = distinct case lines; non-trivial = both operands have more than one element" });
+        rule: "corpus of defect witnesses; exhaustive: every ordered pair of shapes among vectors [n], matrices [n,m], stacks [s,n,m] with lengths 1..3 x {matmul,dot,vdot,inner,outer} x {tag data, signed pseudo-random data} (element types i32/i64/f64 in rotation quick, all three thorough); every vector/matrix pair with lengths up to 4 (quick) / 5 (thorough) for matmul, dot, inner; thorough: every vector/matrix/stack pair with lengths up to 4 x 5 operations (tag data); rank-4 and one-element operands; + seeded random conforming pairs (lengths 1..5, all arms incl. broadcast stacks) + malformed stream (one axis length off by one, unrelated shapes). Robustness streams: element types i8/i16/f32 next to i32/i64/f64 (the crate has no products for unsigned types); contracted lengths 6..9 for every family x 6 element types, a few of 12..70; big operands (axis lengths 7-17, > 256/1024/4096 elements); zero-length axes x every operation; integer value classes (cancelling products beyond i16/i32/i64, entries on the limits of i8/i16/i32/2^24/2^53; outside the representable range = open); float value classes as class-coded operands (+0,-0, subnormal, huge, inf, NaN, inexact fractions) compared with an independent native reference using the documented f64 accumulation; both receivers on every case. distinct = distinct case lines; non-trivial = both operands have more than one element" });
 }
